@@ -5,6 +5,10 @@ HERE = os.path.dirname(os.path.dirname(os.path.abspath(__file__)))
 PY = '/venv/bin/python'
 
 CHECKS = {
+ 'C20': dict(sec='2/C20', cat='fault_enumeration',
+   text='Source-free failpoints: a clean run records every LINE event in the entry points\' own code objects (window_score; template_input, its body, template_metadata) and every PY_START of a directly called function; the run is then repeated with an exception raised from the sys.monitoring callback at the k-th line and at the k-th collaborator call (all k in the thorough tier, a stride in the quick tier) for every initial set/unset state of the touched variables, plus natural failures; after every run the full os.environ must equal the snapshot taken before and the os.putenv/os.unsetenv audit log may only name the touched variables. Complete over the recorded execution paths, not over all paths.',
+   note='Trusts sys.monitoring exception injection and the audit hook; sdss_score is a stub collaborator; template_input runs on a synthetic survey tree; BaseException faults, faults inside the restoring statement itself and keyword-only lines (try:/else:/finally:, which execute nothing) are excluded.',
+   tech='runtime monitoring: sys.monitoring failpoints (fault injection at every recorded line/call) + environment snapshot and audit-hook oracle'),
  'C11': dict(sec='2/C11', cat='exploration',
    text='combine1fiber is run on 1-D spectra and stacked 2-D exposures over every zero-weight pattern, output-grid relation (same, shifted, wider, narrower, coarser, finer, disjoint), aesthetics method, with and without objivar, float32/float64; shape, finiteness and ivar >= 0 are asserted on every call, the must-be-zero set is computed independently from the good-pixel pattern (one-directional, boundary band), non-zero single-spectrum ivar must equal np.interp of the input and stay below the local maximum; smooth noise-free inputs must be reproduced, constants preserved, (c*flux, ivar/c^2) scaled, and preprocess_spectra must move a narrow feature by log10(1+z). An audit hook turns any network access into a harness error.',
    note='Trusts numpy.interp/searchsorted for the reference zero set; SPPIXMASK bits pre-loaded from fixtures/maskbits.par; finalmask/indisp/skyflux paths and fill values at bad pixels are outside the property.',
